@@ -71,7 +71,7 @@ CHECKS = {
   "level": "model_checking",
   "technique": "TLC-enumerated rule lists (one rule per shape) with Ideal verdicts; each executed on an engine and on a second engine loaded from the first one's serialized image; the wire model names the fields the v0 format drops",
   "text": "TLC enumerates all lists of <=2 (quick) / <=3 rules from 29 rules covering every rule shape (all anchors and regex forms, every option bit, include/exclude domain lists, tags on block/exception/important/csp, redirect with priority, redirect-rule, redirect exception, csp, blanket csp exception, removeparam, scheme-folded, badfilter, tokenless multi-domain) x tag sets; the reloaded engine (tags set before loading) must give an Ideal verdict and the same answers as the original for every request. The wire layer of the spec predicts the reloaded behaviour when removeparam rules are present (open finding wireDropsRemoveparam).",
-  "note": TB + "Network and CSP queries only so far; the cosmetic half of the image (hostname rule db, class/id stores, scriptlet permissions) is covered when the cosmetic universes (C16-C18) run with the reload flag.",
+  "note": TB + "The cosmetic half of the image is covered by running the c16/c18/c17b cosmetic universes through the same reload leg. Debug on only (rule text is needed to render rules); optimise on and off.",
  },
 
  "C09": {
